@@ -49,4 +49,6 @@ Inductive tok :=
 (* text meta events: value_i = the meta type of the table row, the FIRST argument ({text} / "text" / an integer literal / nothing) *)
 | TMetaText (ty : Z) (a : option marg)
 (* Port(n): the FIRST argument *)
-| TPort (v : Z).
+| TPort (v : Z)
+(* TempoChange(a [,b [,len]]): the first argument and the others (read_args_tokens yields at least one) *)
+| TTempoChange (a : Z) (rest : list Z).
